@@ -1,11 +1,14 @@
 import GomlVerif.Model.Alpha
+import GomlVerif.Model.Exports
+import GomlVerif.Gen.Exports
 import GomlVerif.Gen.Runtime
 import GomlVerif.Driver.Common
 import GomlVerif.Driver.DecSyntax
 /-!
 driver for C14: `(equiv <separate prog> <whole prog>)` →
-  `equiv closure-free`   the verified validator `Alpha.validate` accepts (`validate_sound` applies)
-  `equiv has-closures`   only the unverified structural comparison (renamed function = function) accepts
+  `equiv verified`       the verified validator `Alpha.validate` accepts (`validate_sound` applies; closures included)
+  `equiv unverified why` only the unverified structural comparison (renamed function = function) accepts;
+                         `why` = the first conjunct of `validFn` that fails
   `differ <function>`    neither does
 The renaming tried is the one the two pipelines differ by: every temporary of a function shifted
 by the offset between the first temporaries of the two bodies.
@@ -20,9 +23,63 @@ def offsetOf (fS fW : Fn) : Nat :=
   | some a, some b => b - a
   | _, _ => 0
 
+/-! ### `(linkenv <g0> (<pkg> …) <separate genv> <whole genv>)`: the link environment of both ways is what
+`Exports.applyAll` of the packages' exports (in the order given) computes, at the level of lookups -/
+
+open Goml.Exports in
+def decMap : Sexp → Option (String × IMap)
+  | .list (.atom f :: entries) =>
+    (entries.mapM fun (x : Sexp) =>
+      match x with
+      | .list [.atom k, .atom v] => some (k, v)
+      | _ => none).map fun es => (f, es)
+  | _ => none
+
+open Goml.Exports in
+def decEnv : Sexp → Option (List (String × IMap))
+  | .list ms => ms.mapM decMap
+  | _ => none
+
+open Goml.Exports in
+def linkenv (g0 : List (String × IMap)) (pkgs : List (String × List (String × IMap))) (sep whole : List (String × IMap)) : String :=
+  let maps := Goml.Gen.Exports.envMaps
+  let applied := Goml.Gen.Exports.appliedMaps
+  -- hypotheses of `applyAll_perm`, on the real exports
+  let notWf := pkgs.findSome? fun (p, e) => (e.find? fun (_, m) => !keysDistinct (m.map (·.1))).map fun (f, _) => s!"{p}:{f}"
+  let clash := pkgs.findSome? fun (p1, e1) => pkgs.findSome? fun (p2, e2) =>
+    if p1 == p2 then none else
+    maps.findSome? fun f => ((ofList e1 f).find? fun (k, v) =>
+      match IMap.lookup (ofList e2 f) k with
+      | some v2 => v2 != v
+      | none => false).map fun (k, _) => s!"{p1}/{p2}:{f}:{k}"
+  match notWf, clash with
+  | some w, _ => s!"differ\tduplicate-key-in-exports\t{w}"
+  | _, some c => s!"differ\ttwo-packages-export-the-same-key-differently\t{c}"
+  | none, none =>
+    let M := applyAll applied (pkgs.map fun (_, e) => ofList e) (ofList g0)
+    let bad := maps.find? fun f => !(IMap.agree (M f) (ofList sep f) && IMap.agree (M f) (ofList whole f))
+    let unknown := (sep ++ whole ++ g0).find? fun (f, _) => !maps.contains f
+    match bad, unknown with
+    | some f, _ => s!"differ\tlookup-differs\t{f}\tsep={IMap.agree (M f) (ofList sep f)}\twhole={IMap.agree (M f) (ofList whole f)}"
+    | _, some (f, _) => s!"differ\tmap-not-in-env.rs\t{f}"
+    | none, none =>
+      let nkeys := (maps.map fun f => (M f).length).foldl (· + ·) 0
+      -- entries of the packages themselves (every package also re-exports the builtins of `g0`)
+      let npk := (pkgs.map fun (_, e) => (e.map fun (f, m) => (m.filter fun (k, _) => (IMap.lookup (ofList g0 f) k).isNone).length).foldl (· + ·) 0).foldl (· + ·) 0
+      let sameOrder := maps.all fun f => (M f).map (·.1) == (ofList sep f).map (·.1)
+      s!"ok\tmaps={maps.length}\tkeys={nkeys}\tpkgkeys={npk}\tpkgs={pkgs.length}\tsame-iteration-order-as-separate={sameOrder}"
+
 def runLine (l : String) : String :=
   let (id, rest) := splitTab l
   match Sexp.parse rest with
+  | some (.list [.atom "linkenv", g0, .list pkgs, sep, whole]) =>
+    let dpk := pkgs.mapM fun (x : Sexp) =>
+      match x with
+      | .list [.atom p, e] => (decEnv e).map fun e => (p, e)
+      | _ => none
+    match decEnv g0, dpk, decEnv sep, decEnv whole with
+    | some g0, some pkgs, some sep, some whole => s!"{id}\tlinkenv\t{linkenv g0 pkgs sep whole}"
+    | _, _, _, _ => s!"{id}\tdecode-error"
   | some (.list [.atom "equiv", s, w]) =>
     match decProg s, decProg w with
     | some S, some W =>
@@ -32,7 +89,8 @@ def runLine (l : String) : String :=
         shift prefixes ((offs.find? (·.1 == fname)).map (·.2) |>.getD 0)
       let names : List (String × List String) := S.fns.map fun f => (f.name, f.params.map (·.1) ++ namesOfE f.body)
       let Ns : String → List String := fun fname => (names.find? (·.1 == fname)).map (·.2) |>.getD []
-      if validate σs Ns S W then s!"{id}\tequiv\tclosure-free\tfns={S.fns.length}\tmoved={(offs.filter (·.2 != 0)).length}"
+      let nclos := (S.fns.filter fun f => !cfE f.body).length
+      if validate σs Ns S W then s!"{id}\tequiv\tverified\tfns={S.fns.length}\tmoved={(offs.filter (·.2 != 0)).length}\twith-closures={nclos}"
       else
         -- unverified fallback: the renamed function is the function, and the name sets agree
         let bad := S.fns.find? fun f =>
@@ -40,10 +98,26 @@ def runLine (l : String) : String :=
           | some g => !eqFn (renFn (σs f.name) f) g
           | none => true
         let extra := W.fns.find? fun g => (S.findFn g.name).isNone
+        -- why the verified validator said no (first failing conjunct of the first failing function)
+        let why : String :=
+          match S.fns.find? (fun f => match W.findFn f.name with
+              | some g => !validFn (σs f.name) (Ns f.name) f g
+              | none => true) with
+          | some f =>
+            match W.findFn f.name with
+            | none => "no-twin"
+            | some g =>
+              let σ := σs f.name
+              let N := Ns f.name
+              if !(f.params.map (fun p => σ p.1) == g.params.map (·.1)) then "params"
+              else if !aeE σ f.body g.body then "shape"
+              else if !injOn σ N then "not-injective"
+              else if !(inE N f.body && f.params.all (fun p => N.contains p.1)) then "names"
+              else if !scC (fun x => σ x != x) [] f.body then "moved-name-not-let-bound-or-closure-param"
+              else "?"
+          | none => if !implsAgree W.impls S.impls then "impls" else "extra-or-duplicate-function"
         match bad, extra with
-        | none, none =>
-          if S.fns.all (fun f => cfE f.body) then s!"{id}\tdiffer\tvalidator-rejects-closure-free-program"
-          else s!"{id}\tequiv\thas-closures\tfns={S.fns.length}"
+        | none, none => s!"{id}\tequiv\tunverified\t{why}\tfns={S.fns.length}\twith-closures={nclos}"
         | some f, _ => s!"{id}\tdiffer\t{f.name}"
         | none, some g => s!"{id}\tdiffer\textra:{g.name}"
     | _, _ => s!"{id}\tdecode-error"
